@@ -119,6 +119,8 @@ def aggregate(outs):
         for name, r in o["results"].items():
             a = agg.setdefault(name, {"name": name, "instances": 0, "discharged": 0, "vacuous": 0, "failed": [], "unknown": [], "solver_s": 0.0,
                                       "target": o["target"], "kind": r.get("kind", "prove"), "sample_smt": None, "backend": r.get("backend")})
+            if r.get("kind") == "forbidden":
+                a["kind"] = "forbidden"
             a["instances"] += r["instances"]
             a["discharged"] += r["discharged"]
             a["vacuous"] += r["vacuous"]
